@@ -113,13 +113,13 @@ from happysimulator.components.consensus.raft_state_machine import KVStateMachin
 from happysimulator.components.network.network import Network  # noqa: E402
 from happysimulator.core.sim_future import SimFuture  # noqa: E402
 
-if "PYVC_OB_TIMEOUT_MS" not in os.environ:
-    _ctx.OB_TIMEOUT_MS = 8000       # per-obligation solver budget of this check (every clause discharges well below it)
+# (no wall-clock solver budget of its own: an 8 s cap used here made one obligation flip to UNDECIDED when all 16 workers
+#  were busy; the deterministic rlimit budgets of pyvc/ctx.py decide, wall clocks are only a backstop)
 
 PROPERTY = {
     "id": "C11",
     "level": "proof",
-    "task_timeout": 3000 if "thorough" in sys.argv else 330,
+    "task_timeout": 3000 if "thorough" in sys.argv else 900,
     "trusted": ["heap typing of the fields declared in specs/C11.py and specs/common.py (incl. the local types EnumTy, "
                 "Record, EventContext: RaftState stored as its int value; event metadata as a record with a presence set)",
                 "structural reading of list surgery in clauses (specs/C11.py nth / pyvc/comp.py _nth,_len): for in-range "
